@@ -88,6 +88,8 @@ _RECOGNISE = {
     1 / 3: None,  # handled as exact 1/3 below
 }
 RECOGNISED_LOG = set()
+# floats that are math.log(k) for a small integer k (e.g. math.log(input.size(0)) in the entropic risk measure)
+_LOG_INTS = {math.log(k): k for k in range(2, 65)}
 
 
 def const(x) -> T:
@@ -104,6 +106,10 @@ def const(x) -> T:
         if x == 2 / 3:
             RECOGNISED_LOG.add("2/3")
             return _mk("const", val=Fraction(2, 3))
+        k = _LOG_INTS.get(x)
+        if k is not None:
+            RECOGNISED_LOG.add("log(%d)" % k)
+            return _mk("app", (_mk("const", val=Fraction(k)),), "log")
         r = _RECOGNISE.get(x)
         if r is not None:
             coef, name, e = r
